@@ -341,6 +341,15 @@ def run_extras(ctx, cases):
 
 
 # ------------------------------------------------------------------ (d) the sentence is parsed as without the tag block
+def _decode_view(line, strict):
+    import pyais
+    try:
+        m = pyais.decode(line, error_if_checksum_invalid=strict)
+    except Exception as e:      # noqa: BLE001 -- the class is the observation
+        return ('raise', type(e).__name__)
+    return ('ok', type(m).__name__, repr(sorted((k, repr(v)) for k, v in m.asdict().items())))
+
+
 def run_sentences(ctx, cases):
     """cases: (tag block bytes, bare line, kind)"""
     from pyais.messages import NMEASentenceFactory
@@ -389,6 +398,16 @@ def run_sentences(ctx, cases):
                 rep.violation({'entry': 'NMEASentenceFactory.produce', 'component': 'tag_block', 'kind': 'wrong-value'},
                               f'tag block {tb!r} before {s!r}: sentence.tag_block = '
                               f'{None if tbo is None else tbo.raw!r}', rp)
+        # the same through the decoding API, lenient and strict (error_if_checksum_invalid=True): what decode() makes of the
+        # line must not depend on the tag block in front of it, whatever the tag block's own checksum says
+        for strict in (False, True):
+            d0, d1 = _decode_view(s, strict), _decode_view(line, strict)
+            if d0 != d1:
+                rep.violation({'entry': 'decode' + ('(strict)' if strict else ''), 'component': 'outcome',
+                               'kind': 'differs-with-tag-block'},
+                              f'decode({s!r}{", error_if_checksum_invalid=True" if strict else ""}) gives {str(d0)[:120]}; behind '
+                              f'the tag block {tb!r}: {str(d1)[:120]}', dict(rp, strict=strict))
+                break
         if i % 97 == 0 and r1[0] == 'ok':
             rep.sample({'clause': 'sentence unchanged', 'line': line.decode('utf-8', 'replace'),
                         'raw': r1[1].raw.decode('ascii', 'replace')})
